@@ -693,6 +693,20 @@ def name_and_index_findings(ctx):
             accepted = start.get(1) is not None
         except Exception:  # noqa
             accepted = False
+        # the ligand side of -lig: 'MB#2' while molecule 2 is of another type
+        lig_t = systems.gen_moltype(ctx.rng, 'MB', nres=1, resnames=['LG'])
+        lig_u = systems.gen_moltype(ctx.rng, 'MC', nres=1, resnames=['LG'])
+        try:
+            from polyply.src.annotate_ligands import AnnotateLigands
+            top2 = load_topology(wd, [chain, lig_t, lig_u], [('MA', 1), ('MB', 1), ('MC', 1)])
+            quiet(AnnotateLigands(top2, [('MA#0-RA#2', 'MB#2')]).run_system, top2)
+            taken = [top2.molecules[0].nodes[n]['ligated'][0] for n in top2.molecules[0].nodes if 'ligated' in top2.molecules[0].nodes[n]]
+        except Exception:  # noqa
+            taken = []
+        ctx.case(('finding', 'F42', 'lig'), nontrivial=True)
+        if taken and top2.molecules[taken[0]].mol_name != 'MB':
+            ctx.violation('spec', f"-lig MA#0-RA#2:MB#2: molecule 2 is named {top2.molecules[taken[0]].mol_name}, yet it is attached as the ligand "
+                          f"(the name on the ligand side is not compared with the molecule at the index)", {'finding_probe': 'F42', 'side': 'ligand'}, finding='F42')
         ctx.case(('finding', 'F42', 'start'), nontrivial=True)
         if accepted:
             ctx.violation('spec', "-start MA#1-RA#3: molecule 1 is named MB, yet its residue 3 is made the start residue (the name is ignored when an index is given)",
